@@ -265,6 +265,31 @@ Definition ca_call_res (T : table) (seq_if : bool) (q : call_eqn) (rho : cenv) :
       | _, Err w => Err w
       end
   end.
+(* Modelica meaning of the call equation `(y1, .., yk) = f(args)`: evaluate the arguments, run the
+   algorithm section sequentially on an environment where the inputs are bound (all other function
+   variables start with an arbitrary number - here the encoding of the caller's scalar of the same
+   name -, a well-formed function assigns before it reads), residual y_j - output_j; a shorter
+   left-hand side discards the remaining outputs *)
+Definition num_of (v : value) : Qc := match v with VNum q => q | VBool b => b2q b end.
+Definition m_fun_env (f : func) (vs : list Qc) (rho : menv) : menv :=
+  {| m_sc := fun y => VNum (bind_args (f_in f) vs (fun z => num_of (m_sc rho z)) y);
+     m_der := m_der rho; m_arr := m_arr rho; m_i := m_i rho |}.
+Definition m_call_res (q : call_eqn) (rho : menv) : option (list (option Qc)) :=
+  match q with
+  | (lhs, f, args) =>
+      match all_some (map (fun a => match m_eval F a rho with Some (VNum v) => Some v | _ => None end) args) with
+      | Some vs =>
+          match exec (f_body f) (m_fun_env f vs rho) with
+          | Some rout =>
+              Some (map (fun yo => match m_sc rho (fst yo), m_sc rout (snd yo) with
+                                   | VNum l, VNum o => Some (l - o)
+                                   | _, _ => None
+                                   end) (combine lhs (f_out f)))
+          | None => None
+          end
+      | None => None
+      end
+  end.
 End WithFun.
 
 (* one call equation of a model on which generate() succeeded *)
